@@ -550,6 +550,11 @@ class MetadorGroup(MetadorNode):
         self.__wrapped__.copy(raw_source, dst_path, **copy_kwargs)  # RAW
         dst_node = self[dst_path]  # exists now
 
+        if src_node.name == "/":
+            # the raw copy of the root group took the TOC along, but the copy is
+            # an ordinary group of this container and not a container itself
+            del self.__wrapped__[dst_node.name.rstrip("/") + M.METADOR_TOC_PATH]
+
         if src_is_dataset and not without_meta:
             # because metadata lives in parallel group, need to copy separately:
             src_meta: str = src_node.meta._base_dir
